@@ -9,7 +9,8 @@ F-28 alias test of `spread`/`outer_product` operands)
   include/adept/FixedArray.h   operator=(Expression) (no alias test), op=
   include/adept/IndexedArray.h operator=(Expression), op=, assign_expression_, is_aliased_
   include/adept/BinaryOperation.h / noalias.h / spread.h / outer_product.h   is_aliased_ of each node
-  include/adept/where.h        Where::operator= (plain and either_or)
+  include/adept/where.h        Where::operator= (plain and either_or), ADEPT_WHERE_OPERATOR (+= -= *= /=)
+  include/adept/Array.h / FixedArray.h / IndexedArray.h   operator=(std::initializer_list…), FixedArray::assign_conditional
 
 Memory is one flat address space of elements (`Int → Int`): every allocation of a case is placed at a
 distinct absolute element address by the driver, so that the pointer comparisons of `is_aliased_` are
@@ -353,6 +354,23 @@ def whereAssign (lhs : View) (mask : BExpr) : WRhs → Mem → Mem
 def whereEitherOr (lhs : View) (mask : BExpr) (c d : WRhs) (m : Mem) : Mem :=
   whereAssign lhs mask c (whereAssign lhs (.not mask) d m)
 
+/-- right-hand side of a `where` as the expression the operators of `BinaryOperation.h` see (`noalias(A) OP c` with a scalar
+    `c` is a `BinaryOpScalarRight`, an Expression: the statement takes the Expression overload of `assign_conditional`) -/
+def WRhs.toExpr : WRhs → Expr
+  | .expr e => e
+  | .scalar x => .const x
+
+/-- `A.where(B) OP= C` (where.h, macro `ADEPT_WHERE_OPERATOR`; `OP=` one of `+= -= *= /=`):
+    `array_.assign_conditional(bool_expr_, noalias(array_) OP c)`.  The pinned tree spells the operand `noalias(*this)` with `*this`
+    the `Where` proxy, which does not compile (finding where-compound-does-not-compile); this is the body with `array_`. -/
+def whereCompound (op : BOp) (lhs : View) (mask : BExpr) (c : WRhs) (m : Mem) : Mem :=
+  assignConditional lhs mask (.bin op (.noalias (.leaf lhs)) c.toExpr) m
+
+/-- `A.where(B) OP= either_or(C, D)`: two passes, `assign_conditional(!B, noalias(A) OP D)` then
+    `assign_conditional(B, noalias(A) OP C)` -/
+def whereCompoundEitherOr (op : BOp) (lhs : View) (mask : BExpr) (c d : WRhs) (m : Mem) : Mem :=
+  whereCompound op lhs mask c (whereCompound op lhs (.not mask) d m)
+
 /-! ## `FixedArray` target: no alias test at all (documented; finding F-22) -/
 
 def fixedAssign (lhs : View) (rhs : Expr) (m : Mem) : Mem := assignExpression lhs rhs m
@@ -360,6 +378,20 @@ def fixedAssign (lhs : View) (rhs : Expr) (m : Mem) : Mem := assignExpression lh
 /-- `FixedArray::operator op=`: `*this = noalias(*this) op rhs` (fix F-03), again without alias test -/
 def fixedCompound (op : BOp) (lhs : View) (rhs : Expr) (m : Mem) : Mem :=
   fixedAssign lhs (.bin op (.noalias (.leaf lhs)) rhs) m
+
+/-- `FixedArray::assign_conditional(bool_expr, rhs)` (FixedArray.h): dimension check, then `assign_conditional_<IsActive>` —
+    the same loop as `Array::assign_conditional_` (`is_gap` included) and, as for every `FixedArray` statement, no alias test;
+    the scalar overload runs `assign_conditional_inactive_scalar_`, the same loop storing the scalar -/
+def fixedWhereAssign (lhs : View) (mask : BExpr) (c : WRhs) (m : Mem) : Mem :=
+  assignConditional_ lhs mask c.toExpr m
+
+/-- `F.where(B) OP= C` on a `FixedArray`: `array_.assign_conditional(bool_expr_, noalias(array_) OP c)` -/
+def fixedWhereCompound (op : BOp) (lhs : View) (mask : BExpr) (c : WRhs) (m : Mem) : Mem :=
+  fixedWhereAssign lhs mask (.expr (.bin op (.noalias (.leaf lhs)) c.toExpr)) m
+
+/-- `F.where(B) = either_or(C, D)` on a `FixedArray` -/
+def fixedWhereEitherOr (lhs : View) (mask : BExpr) (c d : WRhs) (m : Mem) : Mem :=
+  fixedWhereAssign lhs mask c (fixedWhereAssign lhs (.not mask) d m)
 
 /-! ## `IndexedArray` target -/
 
@@ -385,5 +417,29 @@ def indexedCompound (op : BOp) (lhs : IView) (rhs : Expr) (m : Mem) : Mem :=
 def indexedAssignScalar (lhs : IView) (x : Int) (m : Mem) : Mem :=
   if lhs.dims.head? == some 0 || lhs.dims.isEmpty then m else
   (idxs lhs.dims).foldl (fun m ix => write m (lhs.addr ix) x) m
+
+/-! ## initializer lists as statements (`Array.h` ~696-741, `FixedArray.h` ~434-469, `IndexedArray.h` ~583-634) -/
+
+/-- `Array<1>::operator=(std::initializer_list<T>)` on a non-empty vector (the list is not longer than the vector, otherwise
+    `size_mismatch`): `*this = 0;` then `data_[index*offset_[0]] = *i` for the elements of the list -/
+def ilAssign1 (lhs : View) (xs : List Int) (m : Mem) : Mem :=
+  xs.zipIdx.foldl (fun m p => write m (lhs.base + (p.2 : Int) * lhs.strides.headD 0) p.1) (assignScalar lhs 0 m)
+
+/-- `(*this)[i]`: the sub-array at index `i` of the first dimension -/
+def View.sub (v : View) (i : Nat) : View := ⟨v.base + (i : Int) * v.strides.headD 0, v.dims.tail, v.strides.tail⟩
+
+/-- `Array<2>::operator=(std::initializer_list<std::initializer_list<T>>)` on a non-empty matrix: `(*this)[index] = *i` for the
+    rows OF THE LIST only — rows of the matrix the list does not reach are not touched (finding initlist-fewer-rows-not-zeroed;
+    the documentation promises zeros) -/
+def ilAssign2 (lhs : View) (rows : List (List Int)) (m : Mem) : Mem :=
+  rows.zipIdx.foldl (fun m p => ilAssign1 (lhs.sub p.2) p.1 m) m
+
+/-- `FixedArray` of rank 2: `*this = 0; inactive_link() = list;` -/
+def fixedIlAssign2 (lhs : View) (rows : List (List Int)) (m : Mem) : Mem :=
+  ilAssign2 lhs rows (assignScalar lhs 0 m)
+
+/-- `IndexedArray<1>::operator=(std::initializer_list)`: `Array<1,Type,false> array = list; *this = array;` -/
+def indexedIlAssign1 (lhs : IView) (xs : List Int) (m : Mem) : Mem :=
+  indexedAssign lhs (.tmp fun ix => xs.getD (ix.headD 0) 0) m
 
 end Adept.Assign
